@@ -1,9 +1,12 @@
 package main
 
 import (
+	"context"
 	"encoding/json"
+	"sort"
 
 	"github.com/smart-core-os/sc-api/go/traits"
+	"github.com/smart-core-os/sc-golang/pkg/resource"
 	"github.com/smart-core-os/sc-golang/pkg/trait"
 	"github.com/smart-core-os/sc-golang/pkg/trait/parentpb"
 	"github.com/smart-core-os/sc-golang/verifharness/hx"
@@ -25,9 +28,15 @@ type parentOp struct {
 	Name   string   `json:"name"`
 	Traits []string `json:"traits"`
 }
+type parentOpt struct {
+	Kind     string     `json:"kind"` // children | clock
+	Children []absChild `json:"children"`
+	Via      string     `json:"via"` // children: WithInitialChildren ("model") or WithChildrenOption(resource.WithInitialRecord) ("resource")
+}
 type parentWalk struct {
 	N   int `json:"n"`
 	Cfg struct {
+		Opts []parentOpt `json:"opts"`
 		Init []absChild `json:"init"`
 	} `json:"cfg"`
 	Ops []parentOp `json:"ops"`
@@ -41,6 +50,8 @@ type parentObs struct {
 	Traits  []string   `json:"traits"`
 	Pre     []absChild `json:"pre"`
 	Post    []absChild `json:"post"`
+	Opts    []parentOpt `json:"opts"` // New: the option sequence
+	Seed    []absChild `json:"seed"` // New: the children of the PullChildren seed, in name order
 	Ret     optChild   `json:"ret"`
 	Created bool       `json:"created"`
 	Err     string     `json:"err"`
@@ -94,18 +105,45 @@ func init() { register("parent", runParent) }
 func runParent(raw json.RawMessage, out *hx.Out) {
 	w := decode[parentWalk](raw)
 	var m *parentpb.Model
-	initial := []*traits.Child{}
-	for _, c := range w.Cfg.Init {
-		initial = append(initial, concChild(c))
-	}
 	o := parentObs{Model: "parent", Walk: w.N, Op: "New", Traits: []string{}, Pre: w.Cfg.Init, Post: []absChild{},
-		Ret: optChildOf(nil), Err: "OK"}
+		Ret: optChildOf(nil), Err: "OK", Opts: w.Cfg.Opts, Seed: []absChild{}}
 	if o.Pre == nil {
 		o.Pre = []absChild{}
 	}
+	for i := range o.Opts {
+		if o.Opts[i].Children == nil {
+			o.Opts[i].Children = []absChild{}
+		}
+	}
 	o.Panic = hx.Catch(func() {
-		m = parentpb.NewModel(parentpb.WithInitialChildren(initial...))
+		var opts []resource.Option
+		for _, co := range w.Cfg.Opts {
+			switch co.Kind {
+			case "children":
+				var cs []*traits.Child
+				for _, c := range co.Children {
+					cs = append(cs, concChild(c))
+				}
+				if co.Via == "resource" {
+					for _, c := range cs {
+						opts = append(opts, parentpb.WithChildrenOption(resource.WithInitialRecord(c.Name, c)))
+					}
+				} else {
+					opts = append(opts, parentpb.WithInitialChildren(cs...))
+				}
+			case "clock":
+				opts = append(opts, resource.WithClock(scriptedClock()))
+			default:
+				hx.Fatal("parent: unknown option kind %q", co.Kind)
+			}
+		}
+		m = parentpb.NewModel(opts...)
 		o.Post = parentState(m)
+		seed, _ := pullSeed(func(ctx context.Context) <-chan *traits.PullChildrenResponse_Change { return m.PullChildren(ctx) }, len(o.Post))
+		for _, ch := range seed {
+			o.Seed = append(o.Seed, absChildOf(ch.GetNewValue()))
+		}
+		sort.Slice(o.Seed, func(i, j int) bool { return o.Seed[i].Name < o.Seed[j].Name })
 	})
 	out.Write(o)
 	if m == nil {
@@ -113,7 +151,7 @@ func runParent(raw json.RawMessage, out *hx.Out) {
 	}
 	for i, op := range w.Ops {
 		o := parentObs{Model: "parent", Walk: w.N, Step: i + 1, Op: op.Op, Name: op.Name, Traits: strs(op.Traits),
-			Ret: optChildOf(nil), Err: "OK", Post: []absChild{}}
+			Ret: optChildOf(nil), Err: "OK", Post: []absChild{}, Opts: []parentOpt{}, Seed: []absChild{}}
 		o.Pre = parentState(m)
 		o.Panic = hx.Catch(func() {
 			switch op.Op {
